@@ -138,11 +138,11 @@ func verifHarnessC14() {
 		}
 		switch ops[verifChoice("op", len(ops))] {
 		case vOpPut:
-			ki := verifChoice("ki", len(kp.keys))
+			ki := verifChoice("ki", kp.hot())
 			v := verifValue("v")
 			verifAssert(a.Put(kp.keys[ki], v) == b.Put(kp.keys[ki], v), "C14.put-result-differs")
 		case vOpDelete:
-			ki := verifChoice("ki", len(kp.keys))
+			ki := verifChoice("ki", kp.hot())
 			verifAssert(a.Delete(kp.keys[ki]) == b.Delete(kp.keys[ki]), "C14.delete-result-differs")
 		case vOpSync:
 			verifAssert(a.Sync() == b.Sync(), "C14.sync-result-differs")
@@ -150,7 +150,7 @@ func verifHarnessC14() {
 			ba, bb := a.NewBatch(DefaultBatchOptions), b.NewBatch(DefaultBatchOptions)
 			n := 1 + verifChoice("bops", 2)
 			for i := 0; i < n; i++ {
-				ki := verifChoice("bki", len(kp.keys))
+				ki := verifChoice("bki", kp.hot())
 				if verifChoice("bop", 2) == 0 {
 					v := verifValue("bv")
 					verifAssert(ba.Put(kp.keys[ki], v) == bb.Put(kp.keys[ki], v), "C14.bput-result-differs")
